@@ -32,7 +32,7 @@ Definition DQ : N := 34%N.  Definition COMMA : N := 44%N.
 (* ------------------------------------------------------------------------------------------ *)
 (* paths relative to the context directory                                                     *)
 Inductive comp :=
-| CDb | CDatasets | CHash | CPharmpy | CPending | CLock | CModels | CAnnot | CAnnotLock
+| CDb | CDatasets | CHash | CPharmpy | CPending | CLock | CModels | CAnnot | CAnnotLock | CAnnotTmp
 | CLog | CLogLock | CSub | CCommon | CModelFile | CResults | CMetadata
 | CCsv (n : N)        (* dataN.csv  (in .datasets and, as index entry, in .datasets/.hash/<h>) *)
 | CDi (n : N)         (* dataN.datainfo *)
@@ -44,7 +44,7 @@ Inductive comp :=
 Definition comp_eqb (a b : comp) : bool :=
   match a, b with
   | CDb, CDb | CDatasets, CDatasets | CHash, CHash | CPharmpy, CPharmpy | CPending, CPending
-  | CLock, CLock | CModels, CModels | CAnnot, CAnnot | CAnnotLock, CAnnotLock | CLog, CLog
+  | CLock, CLock | CModels, CModels | CAnnot, CAnnot | CAnnotLock, CAnnotLock | CAnnotTmp, CAnnotTmp | CLog, CLog
   | CLogLock, CLogLock | CSub, CSub | CCommon, CCommon | CModelFile, CModelFile
   | CResults, CResults | CMetadata, CMetadata => true
   | CCsv x, CCsv y | CDi x, CDi y | CKey x, CKey y | CDh x, CDh y => N.eqb x y
@@ -114,7 +114,8 @@ Inductive op :=
 | OpenA (p : path) (c : content)   (* open(.., 'a'): append c, close *)
 | Listdir (p : path)               (* os.listdir / os.scandir (Path.iterdir) *)
 | Remove (p : path)                (* os.remove (Path.unlink) *)
-| Symlink (t : path) (p : path).   (* os.symlink(target, p); target resolved against the context dir *)
+| Symlink (t : path) (p : path)    (* os.symlink(target, p); target resolved against the context dir *)
+| Rename (s : path) (d : path).    (* os.rename / os.replace(s, d): atomic *)
 
 Definition can_write (f : fs) (p : path) : bool :=
   match lookup f p with
@@ -138,6 +139,12 @@ Definition apply_op (o : op) (f : fs) : fs :=
       else f
   | Remove p => match lookup f p with Some (File _) | Some (Torn _) | Some (Link _) => remove f p | _ => f end
   | Symlink t p => if parent_ok f p && negb (exists_ f p) then set f p (Link t) else f
+  | Rename s d =>
+      match lookup f s with
+      | Some (File c) => if can_write f d then set (remove f s) d (File c) else f
+      | Some (Torn c) => if can_write f d then set (remove f s) d (Torn c) else f
+      | _ => f
+      end
   | Utime _ | OpenL _ | OpenR _ | Listdir _ => f
   end.
 
@@ -231,6 +238,9 @@ Definition append_file (p : path) (c : content) : M unit :=
 Definition read_file (p : path) : M content :=
   f <- get ;; emit (OpenR p) ;;
   match read_node (lookup f p) with Some c => ret c | None => fail EFileNotFound end.
+Definition rename_file (s d : path) : M unit :=
+  f <- get ;; emit (Rename s d) ;;
+  if is_file f s && can_write f d then ret tt else fail EFileNotFound.
 Definition remove_file (p : path) : M unit :=
   f <- get ;; emit (Remove p) ;;
   match lookup f p with Some (File _) | Some (Torn _) | Some (Link _) => ret tt | _ => fail EFileNotFound end.
@@ -273,33 +283,41 @@ Definition transaction {A} (K : N) (body : M A) : M A :=
 Definition highest (f : fs) : N :=
   fold_left (fun acc c => match c with CCsv n => N.max acc n | _ => acc end) (children f ds_dir) 0%N.
 
+(* the dataset part of store_model.  An index directory without entry is what an interrupted store
+   leaves behind and counts as "not indexed"; the index entry is created LAST, after the csv and the
+   datainfo (commit b547698). *)
+Definition store_dataset (m : mdl) (f : fs) : M N :=
+  let h := m_dh m in
+  let create : M N :=
+    mkdir_p (hdir h) ;;
+    f1 <- get ;; emit (Listdir ds_dir) ;;
+    let n := (highest f1 + 1)%N in
+    write_file (csv n) [T_CSV; h] ;;
+    write_file (dinfo n) [T_DI; m_di m; n] ;;
+    touch (hidx h n) ;;
+    ret n in
+  if is_dir f (hdir h) then
+    emit (Listdir (hdir h)) ;;                                  (* next(h_dir.iterdir(), None) *)
+    match children f (hdir h) with
+    | [] => create
+    | CCsv n :: _ =>
+        dc <- read_file (dinfo n) ;;                            (* DataInfo.read_json(dipath) *)
+        match dc with
+        | [t; di; n'] =>
+            if N.eqb t T_DI then ret (if N.eqb di (m_di m) then n' else 0%N)
+            else fail ECorrupt
+        | _ => fail ECorrupt
+        end
+    | _ :: _ => fail ECorrupt
+    end
+  else create.
+
 (* LocalModelDirectoryDatabaseTransaction.store_model *)
 Definition store_model (m : mdl) : M unit :=
   let K := m_key m in let h := m_dh m in
   f <- get ;;
   if is_file f (model_file K) then ret tt else
-  link <- (if is_dir f (hdir h) then
-             emit (Listdir (hdir h)) ;;
-             match children f (hdir h) with
-             | [] => fail EStopIteration                       (* next(h_dir.iterdir()) *)
-             | CCsv n :: _ =>
-                 dc <- read_file (dinfo n) ;;                  (* DataInfo.read_json(dipath) *)
-                 match dc with
-                 | [t; di; n'] =>
-                     if N.eqb t T_DI then ret (if N.eqb di (m_di m) then n' else 0%N)
-                     else fail ECorrupt
-                 | _ => fail ECorrupt
-                 end
-             | _ :: _ => fail ECorrupt
-             end
-           else
-             mkdir_p (hdir h) ;;
-             f1 <- get ;; emit (Listdir ds_dir) ;;
-             let n := (highest f1 + 1)%N in
-             touch (hidx h n) ;;
-             write_file (csv n) [T_CSV; h] ;;
-             write_file (dinfo n) [T_DI; m_di m; n] ;;         (* datainfo last *)
-             ret n) ;;
+  link <- store_dataset m f ;;
   mkdir1 (key_dir K) true ;;
   write_file (model_file K) [T_MODEL; K; h; link].
 
@@ -396,7 +414,30 @@ Fixpoint split_sp (l : str) : str * option str :=
   | c :: tl => if N.eqb c SP then ([], Some tl) else let '(a, r) := split_sp tl in (c :: a, r)
   end.
 
-Definition annot_line (name a : str) : str := name ++ [SP] ++ a ++ [LF].
+Definition BS : N := 92%N.   (* backslash *)
+(* annotation.replace('\\', '\\\\').replace('\n', '\\n').replace('\r', '\\r')  (commit 81deceb) *)
+Definition esc1 (c : N) : str :=
+  if N.eqb c BS then [BS; BS] else if N.eqb c LF then [BS; 110%N] else if N.eqb c CR then [BS; 114%N] else [c].
+Definition escape (a : str) : str := flat_map esc1 a.
+(* re.sub(r'\\(.)', known escapes or the match itself, s): '.' does not match a line feed *)
+Fixpoint unescape (s : str) : str :=
+  match s with
+  | [] => []
+  | c :: tl =>
+      if N.eqb c BS then
+        match tl with
+        | d :: tl' =>
+            if N.eqb d 110 then LF :: unescape tl'
+            else if N.eqb d 114 then CR :: unescape tl'
+            else if N.eqb d BS then BS :: unescape tl'
+            else if N.eqb d LF then c :: unescape tl
+            else c :: d :: unescape tl'
+        | [] => [c]
+        end
+      else c :: unescape tl
+  end.
+
+Definition annot_line (name a : str) : str := name ++ [SP] ++ escape a ++ [LF].
 
 Fixpoint annot_replace (lines : list str) (name a : str) : list str * bool :=
   match lines with
@@ -419,7 +460,7 @@ Fixpoint annot_find (lines : list str) (name : str) : ares :=
   | l :: tl =>
       let '(a0, r) := split_sp l in
       if str_eqb a0 name then
-        match r with Some rest => AFound (removelast rest) (* a[1][:-1] *) | None => AIndexError end
+        match r with Some rest => AFound (unescape (removelast rest)) (* a[1][:-1] *) | None => AIndexError end
       else annot_find tl name
   end.
 
@@ -516,22 +557,13 @@ Definition na_values : list str :=
     [110;117;108;108] ]%N.
 Definition is_na (s : str) : bool := existsb (str_eqb s) na_values.
 
-(* characters that can occur in something the column type inference may read as a number or a
-   boolean: digits, sign, point, white space, and the letters of inf/infinity/nan/true/false *)
-Definition numeric_alphabet : list N :=
-  [48;49;50;51;52;53;54;55;56;57; 43;45;46; 32;9;10;11;12;13;
-   101;105;110;102;116;121;97;114;117;108;115; 69;73;78;70;84;89;65;82;85;76;83]%N.
-Definition is_text (s : str) : bool :=
-  negb (is_na s) && existsb (fun c => negb (existsb (N.eqb c) numeric_alphabet)) s.
-
 Inductive cell := CStr (s : str) | CNaN.
 
 (* the 'message' column of retrieve_log() *)
 Inductive logres :=
 | LCells (l : list cell)
 | LParserError          (* pandas.errors.ParserError / EmptyDataError *)
-| LKeyError             (* the header line is not the expected one *)
-| LUnmodelled.          (* a column the engine may convert to numbers / booleans / all-NaN floats *)
+| LKeyError.            (* the header line is not the expected one *)
 
 Definition nth_field (r : list str) (i : nat) : option str := nth_error r i.
 Definition header_row : list str :=
@@ -545,10 +577,9 @@ Definition read_log (file : str) : logres :=
       if negb (list_eqb str_eqb hdr header_row) then LKeyError           (* df['path'] / df['message'] *)
       else if existsb (fun r => Nat.ltb 4 (length r)) rows then LParserError   (* "Expected 4 fields, saw n" *)
       else
-        let cells := map (fun r => match nth_field r 3 with Some s => Some (cstr s) | None => None end) rows in
-        if existsb (fun c => match c with Some s => is_text s | None => false end) cells
-        then LCells (map (fun c => match c with Some s => if is_na s then CNaN else CStr s | None => CNaN end) cells)
-        else match cells with [] => LCells [] | _ => LUnmodelled end
+        (* read_csv(dtype=str, keep_default_na=False) (commit 90b40e7): every cell is a string, a missing
+           trailing field is the empty string; the C parser still ends a cell at NUL *)
+        LCells (map (fun r => match nth_field r 3 with Some s => CStr (cstr s) | None => CStr [] end) rows)
   end.
 
 (* guards of the log codec *)
@@ -556,11 +587,8 @@ Definition no_nul (s : str) : bool := negb (existsb (N.eqb 0) s).
 (* a field written without quotes: no separator, quote or line break *)
 Definition plain_field (s : str) : bool :=
   negb (existsb (fun ch => N.eqb ch COMMA || N.eqb ch DQ || N.eqb ch LF || N.eqb ch CR) s).
-(* every message survives the NA filter and the C string conversion, and at least one message keeps the
-   column a string column *)
-Definition log_guard (msgs : list str) : bool :=
-  forallb (fun m => negb (is_na m) && no_nul m) msgs
-  && match msgs with [] => true | _ => existsb is_text msgs end.
+(* every message survives the C string conversion *)
+Definition log_guard (msgs : list str) : bool := forallb no_nul msgs.
 
 (* the whole log file after the given (ctxpath, date, severity, message) records *)
 Definition log_file (rows : list (str * str * str * str)) : str :=
@@ -570,6 +598,7 @@ Definition log_file (rows : list (str * str * str * str)) : str :=
 (* LocalDirectoryContext                                                                       *)
 Definition annot_path : path := [CAnnot].
 Definition annot_lock : path := [CAnnotLock].
+Definition annot_tmp : path := [CAnnotTmp].
 Definition log_path : path := [CLog].
 Definition log_lock : path := [CLogLock].
 Definition models_dir : path := [CModels].
@@ -612,7 +641,8 @@ Definition store_key (name : str) (K : N) : M unit :=
 Definition store_annotation (name a : str) : M unit :=
   lock annot_lock ;;
   c <- read_file annot_path ;;
-  write_file annot_path (annot_store c name a).
+  write_file annot_tmp (annot_store c name a) ;;       (* temp file, then os.replace (commit ffb4c75) *)
+  rename_file annot_tmp annot_path.
 
 Definition store_message (ctxpath date sev msg : str) : M unit :=
   lock log_lock ;;
@@ -726,9 +756,11 @@ Definition key_file (K : N) (p : path) : bool :=
 
 Definition wtarget (o : op) : option path :=
   match o with
-  | Mkdir p | OpenC p | OpenX p | OpenW p _ | OpenA p _ | Remove p | Symlink _ p => Some p
+  | Mkdir p | OpenC p | OpenX p | OpenW p _ | OpenA p _ | Remove p | Symlink _ p | Rename _ p => Some p
   | Utime _ | OpenL _ | OpenR _ | Listdir _ => None
   end.
+(* the second path an operation changes: the source of a rename *)
+Definition wsource (o : op) : option path := match o with Rename s _ => Some s | _ => None end.
 
 Definition not_torn (n : option node) : bool := match n with Some (Torn _) => false | _ => true end.
 
